@@ -783,6 +783,146 @@ def list_correspondence(ck, ref):
     return dict(stats), inv
 
 
+# ------------------------------------------------------------------------------------------------ emitted HashMap<K,V>
+HM_ENGINES = {'si': ('string', 'int'), 'is': ('int', 'string'), 'ss': ('string', 'string'), 'ii': ('int', 'int')}
+
+
+def hm_extra():
+    inc = os.path.join(vlib.BUILD, 'gen', 'nl_hashmap.inc')
+    h = hashlib.sha256(open(inc, 'rb').read()).hexdigest()[:16]
+    return ['-DHM_INC="%s"' % inc, '-DHM_HASH=0x%s' % h]
+
+
+def hm_key(k):
+    return ('s:%s' % k) if isinstance(k, str) else ('i:%x' % (k & c20_native.M64))
+
+
+def hm_chain_history(P, eng, k, slot, removes_idx, start):
+    """k keys of ONE probe chain (same home slot in the initial table, keys chosen by computing the emitted hash), the keys at
+    `removes_idx` removed, everything looked up, removed keys re-inserted (first-tombstone reuse), all but the last removed, growth past
+    the load factor, lookups in the grown table, clear"""
+    kt = HM_ENGINES[eng][0]
+    keys = c20_native.hm_chain(P, kt, slot, k + 2, P['init'], start=start)
+    chain, absent, other = keys[:k], keys[k], keys[k + 1]
+    L = ['hnew ' + eng]
+    L += ['put %s %x' % (hm_key(key), i + 1) for i, key in enumerate(chain)]
+    for i in removes_idx:
+        L += ['rm ' + hm_key(chain[i]), 'has ' + hm_key(chain[i])]
+    look = [op + ' ' + hm_key(key) for key in chain + [absent] for op in ('has', 'get')]
+    L += look + ['len']
+    L += ['put %s %x' % (hm_key(chain[i]), 0x70 + i) for i in removes_idx[:1]] + ['put %s 99' % hm_key(absent), 'put %s 9a' % hm_key(chain[-1])] + look + ['keys']
+    L += ['rm ' + hm_key(key) for key in chain[:-1]] + ['rm ' + hm_key(absent)] + look + ['len', 'rm ' + hm_key(other), 'put %s 5' % hm_key(other)]
+    fill = c20_native.hm_chain(P, kt, (slot + 5) % 16, 14, P['init'], start=start + 7000)
+    L += ['put %s %x' % (hm_key(key), 0x100 + i) for i, key in enumerate(fill)] + look + ['get ' + hm_key(fill[0]), 'get ' + hm_key(fill[-1]), 'len', 'keys']
+    L += ['put %s %x' % (hm_key(key), 0x200 + i) for i, key in enumerate(chain)] + ['rm ' + hm_key(chain[1]), 'rm ' + hm_key(chain[0])] + look
+    L += ['clear', 'len'] + look[:4] + ['put %s 1' % hm_key(chain[-1]), 'get ' + hm_key(chain[-1]), 'keys']
+    return L
+
+
+def gen_hm_history(rng, P, maxlen, stats):
+    eng = rng.choice(list(HM_ENGINES))
+    kt = HM_ENGINES[eng][0]
+    # a small universe of keys concentrated on 1-3 home slots (of the 16-slot table), plus a few unrelated / extreme ones
+    uni = []
+    for _ in range(rng.randrange(1, 4)):
+        uni += c20_native.hm_chain(P, kt, rng.randrange(16), rng.randrange(2, 8), P['init'], start=rng.randrange(0, 5000), prefix=rng.choice(['k', 'id', 'session-']))
+    if kt == 'int':
+        uni += [0, 0xffffffffffffffff, 0x8000000000000000, rng.getrandbits(64)]
+    else:
+        uni += ['', 'a', 'x' * rng.randrange(1, 300)]
+    L = ['hnew ' + eng]
+    val = lambda: rng.randrange(1, 1 << rng.choice([4, 16, 63]))
+    for _ in range(rng.randrange(4, maxlen)):
+        r = rng.random()
+        key = rng.choice(uni)
+        if r < 0.34: L.append('put %s %x' % (hm_key(key), val())); stats['hm:put'] += 1
+        elif r < 0.56: L.append('rm ' + hm_key(key)); stats['hm:remove'] += 1
+        elif r < 0.72: L.append('has ' + hm_key(key)); stats['hm:has'] += 1
+        elif r < 0.88: L.append('get ' + hm_key(key)); stats['hm:get'] += 1
+        elif r < 0.91: L.append('len')
+        elif r < 0.94: L.append('keys')
+        elif r < 0.955: L.append('clear'); stats['hm:clear'] += 1
+        else:
+            # a burst of fresh keys: growth (and the tombstones of the old table disappear)
+            burst = c20_native.hm_chain(P, kt, rng.randrange(16), rng.randrange(3, 20), P['init'], start=rng.randrange(10000, 90000), prefix='b')
+            L += ['put %s %x' % (hm_key(k2), val()) for k2 in burst]; uni += burst[:3]; stats['hm:burst'] += 1
+    stats['hm:histories'] += 1; stats['hm:engine:' + eng] += 1
+    return L
+
+
+def hm_correspondence(ck, ref):
+    from collections import Counter
+    stats = Counter()
+    rng = ck.rng
+    P = c20_native.hm_params()
+    raw = json.load(open(os.path.join(vlib.BUILD, 'gen', 'hashmap_params.json')))
+    stats['hm:find_slot_shape'] = raw.get('shape')
+    probe = ck.probe('hm_probe.c', 'asan', extra=hm_extra())
+    hist = []
+    # the shape of the fourth-round seeded change: 11 keys in 16 slots, 8 removed, 14 looked up
+    for eng in HM_ENGINES:
+        kk = (lambda i: 'session-%d' % i) if HM_ENGINES[eng][0] == 'string' else (lambda i: 1000 + 37 * i)
+        hist.append(['hnew ' + eng] + ['put %s %x' % (hm_key(kk(i)), i + 1) for i in range(11)] + ['rm ' + hm_key(kk(i)) for i in range(8)] +
+                    [op + ' ' + hm_key(kk(i)) for i in range(14) for op in ('has', 'get')] + ['len', 'keys'])
+    n = 0
+    for eng in HM_ENGINES:
+        for k in (2, 3, 4, 5, 6, 8):
+            pats = [[0], [1], [0, 1], [1, 0], list(range(k - 1)), list(range(k - 2, -1, -1))] + ([[1, 2], [0, 2]] if k >= 4 else [])
+            for slot in (3, 14 if k > 2 else 15):            # the second chain wraps around the end of the table
+                for pat in pats:
+                    pat = [i for i in pat if i < k - 1] or [0]
+                    n += 1
+                    hist.append(hm_chain_history(P, eng, k, slot, pat, 50 * n)); stats['hm:chain_histories'] += 1
+                    stats['hm:chain:tombstones_before_live=%d' % len(pat)] += 1
+    nh, maxlen = (1200, 160) if ck.thorough else (160, 90)
+    for _ in range(nh):
+        hist.append(gen_hm_history(rng, P, maxlen, stats))
+    bad = 0
+    for eng in HM_ENGINES:                                      # one probe process per instantiation
+        hs = [h for h in hist if h[0] == 'hnew ' + eng]
+        lines = [l for h in hs for l in h]
+        rc, o, e = vlib.sh([probe], input=('\n'.join(lines) + '\n').encode(), timeout=900, env=ASAN_ENV)
+        impl = o.splitlines()
+        model = vlib.run_lines(ref, lines, timeout=900)
+        sl = san_lines(e)
+        if rc != 0 or sl or len(impl) != len(lines):
+            k = len(impl); pos, hh = 0, None
+            for h in hs:
+                if pos + len(h) > k: hh = h[:k - pos + 1]; break
+                pos += len(h)
+            ck.fail('c20:hm:crash:%s:%s' % (eng, hashlib.sha256('\n'.join(hh or []).encode()).hexdigest()[:12]),
+                    'hm_probe (the emitted HashMap<%s,%s> helpers under ASan) died / sanitizer report at "%s" (rc=%s; the model says: %s): %s' % (
+                        HM_ENGINES[eng][0], HM_ENGINES[eng][1], lines[k] if k < len(lines) else '?', rc, (model[k] if k < len(model) else '?')[:60], '; '.join(sl[:2])),
+                    dict(part='hm', history=hh, stderr=e[-3000:], engine='hm_probe(asan)', model_says=model[k] if k < len(model) else None))
+        pos = 0
+        for h in hs:
+            hi = impl[pos:pos + len(h)]; hm = model[pos:pos + len(h)]
+            ck.count(('hm', tuple(h)), any(' st=' in x and 'T' in x.split(' st=')[1].split(' ')[0] for x in hm) and len(h) >= 6, n=len(hi))
+            for j, (a, m) in enumerate(zip(hi, hm)):
+                if a != m:
+                    bad += 1
+                    if m == 'crash':
+                        ck.fail('c20:hm:model-compares-freed-key:%s:%s' % (eng, hashlib.sha256('\n'.join(h[:j + 1]).encode()).hexdigest()[:12]),
+                                'the model built from the emitted find_slot text (tombstone branch shape %s) compares the key of a removed entry at "%s" (%s); the helpers answered %s' % (
+                                    raw.get('shape'), h[j], h[0], a[:120]), dict(part='hm', history=h[:j + 1], expected_model=m, observed_impl=a))
+                    else:
+                        ck.fail('c20:hm:%s:%s' % (eng, hashlib.sha256('\n'.join(h[:j + 1]).encode()).hexdigest()[:12]),
+                                'emitted HashMap differs from the model after "%s" (%s): impl=%s model=%s' % (h[j], h[0], a[:200], m[:200]),
+                                dict(part='hm', history=h[:j + 1], expected_model=m, observed_impl=a, correspondence='hm_probe vs nvref_c20'))
+                    break
+            pos += len(h)
+            if bad > 8: break
+        if any('ABS-MISMATCH' in m for m in model):
+            k = next(i for i, m in enumerate(model) if 'ABS-MISMATCH' in m)
+            ck.fail('c20:hm:model-selfcheck', 'extracted HashMap model: table and association list disagree at "%s": %s' % (lines[k], model[k][:200]), dict(part='hm', line=lines[k]))
+        stats['hm:lines:' + eng] = len(lines)
+        stats['hm:max_capacity:' + eng] = max([int(x.split(' cap=')[1].split(' ')[0]) for x in model if ' cap=' in x] or [0])
+        if eng == 'si':
+            k = next((i for i, l in enumerate(lines) if l.startswith('has s:session-8')), 3)
+            ck.sample(dict(op=lines[k], impl=impl[k] if k < len(impl) else None, model=model[k]))
+    return dict(stats)
+
+
 RUNTIME_INVENTORY = {
     'src/runtime/dyn_array.c': 'MODELLED (NV.Runtime.DynArray, refinement + invariant) + probe dyn_probe + native shapes arr_ops_*, self_ref_*, structs, nested_arrays',
     'src/runtime/gc.c': 'MODELLED without children (NV.Runtime.Gc) + probe gc_probe (3 engines); gc_mark / finalizers only through native runs (gc_tail, NANO_GC_THRESHOLD_MB=1; the gc_mark-over-inline-structs finding is fixed by 749aa39)',
@@ -794,7 +934,7 @@ RUNTIME_INVENTORY = {
     'inline List<UserStruct> specialisation emitted by src/transpiler.c (nl_list_T_new/push/get/set/length, capacity 4, doubling)': 'generator-covered only: native shape lists_struct (push/get/set/length across 4/8/16/32); get has no bounds test -> open finding c20:native:asan:list_generic_get:index-out-of-range',
     'emitted string builder nl_fmt_sb_* (src/stdlib_runtime.c)': 'MODELLED (NV.Runtime.FmtSb, growth rule read from the emitted text) + probe sb_probe + native shape fmt_composite',
     'emitted helpers of src/stdlib_runtime.c (nl_array_slice, nl_str_*, int/float text, path_*, bytes)': 'nl_array_slice inside the DynArray model; the others generator-covered: native shapes buffers, str_loop, str_array_calls (see buffer_sites)',
-    'emitted HashMap<K,V> specialisations (src/transpiler.c)': 'generator-covered: native shape hashmap (the 5 string-ownership findings are fixed by 855352b)',
+    'emitted HashMap<K,V> specialisations (src/transpiler.c generate_hashmap_implementations: nl_hashmap_<K>_<V>_*)': 'MODELLED (NV.Runtime.HashMapRt: open addressing with tombstones; capacity, load factor, growth, hash constants and the shape of the tombstone branch read from the emitted text by tools/gen/gen_hashmap.py; refinement to the association list + invariant + no-access-to-a-freed-key) + probe hm_probe (the emitted text of the four instantiations under ASan) + native shapes hashmap, hashmap_chains and the fixed program edges_hashmap_chains (the 5 string-ownership findings are fixed by 855352b)',
     'src/runtime/hashmap_bootstrap.c': 'OUT OF SCOPE: not in the runtime list nanoc links into native programs (used by the self-hosted compiler bootstrap only)',
     'src/runtime/nl_string.c': 'linked into every native program but no emitted code calls nl_string_* (strings are char* from gc_alloc_string): not reached by accepted core programs; not modelled',
     'src/runtime/cli.c, regex.c, token_helpers.c, ffi_loader.c, sdl_helpers.c, schema_lists.c': 'OUT OF SCOPE: command-line / regex module / self-hosting / FFI helpers reached only through module imports or extern declarations, not by core-language programs',
@@ -804,7 +944,7 @@ RUNTIME_INVENTORY = {
 
 def run(ck):
     b = ck.build('plain')
-    ck.gen(['gen_rtparams', 'gen_fmtsb', 'gen_listrt'])
+    ck.gen(['gen_rtparams', 'gen_fmtsb', 'gen_listrt', 'gen_hashmap'])
     FLAGS.update(measured_flags())
     c20_native.PUSH_OWN_STRUCT_SAFE = FLAGS['push_self_safe']
     ck.extra['measured_flags'] = dict(FLAGS)
@@ -818,6 +958,7 @@ def run(ck):
     ck.extra['gc'] = gc_correspondence(ck, ref)
     ck.extra['string_builder'] = sb_correspondence(ck, ref)
     ck.extra['list'], linv = list_correspondence(ck, ref)
+    ck.extra['hashmap'] = hm_correspondence(ck, ref)
     ck.extra['runtime_inventory'] = dict(RUNTIME_INVENTORY, list_files_checked=dict(template_instances=len(linv['template_instances']), different=[d['file'] for d in linv['different']],
                                                                                       generate_list_sh_is_template=linv['generated_script_is_template']))
     n2 = ck.cov['evaluations']
@@ -835,6 +976,9 @@ def run(ck):
                       'counts, set membership and statistics compared after every operation; non-trivial = some object released to zero.  '
                       'list: the runtime list template (list_int.c, list_string.c, generate_list.sh output) on histories of push / pop / insert front-middle-end / remove / set / get / clear '
                       'with the length at capacity-1 / capacity / capacity+1 of every growth step, contents and capacity compared after every operation.  '
+                      'hm: the emitted HashMap<K,V> helpers of the four instantiations (text compiled into hm_probe): chain histories whose keys are chosen by computing the emitted hash '
+                      '(2..8 keys with one home slot, incl. chains wrapping the end of the table; the 1st / 2nd / first two / all but the last removed; lookups of every key; re-insertion into the first tombstone; growth past the load factor; clear) '
+                      'and generated histories over key universes concentrated on 1-3 home slots; size, tombstones, capacity, the state of every slot and a hash of the live (slot, key, value) triples compared after every operation; non-trivial = the table held a tombstone.  '
                       'sb: the emitted string builder nl_fmt_sb_* (helper text compiled into sb_probe) on append histories whose needed size lands on capacity-1 / capacity / '
                       'capacity+1 / 2*capacity(+1) / 4*capacity+1 and pieces 0..5000; len, cap, NUL, strlen and a hash of the text compared after every append.  '
                       'native: ' + (rule_native or ''))
@@ -843,6 +987,7 @@ def run(ck):
                    'probes/dyn_probe.c (values passed as raw 64-bit patterns; string/array elements are opaque pointers, never dereferenced by dyn_array.c)',
                    'translator tools/gen/dump_listrt.c + gen_listrt.py (list constants measured by calling list_int.c; textual identity of the other list files by normalising identifiers); probes/list_probe.c #includes the three list sources with exit() redirected',
                    'translator tools/gen/dump_fmtsb.c + gen_fmtsb.py (growth rule and constants of nl_fmt_sb_ensure read from the emitted text by pattern; the remaining tokens compared with a template); probes/sb_probe.c compiles that text',
+                   'translator tools/gen/gen_hashmap.py (runs nanoc -S of the compiler under test on a program instantiating the four maps; constants by pattern, the tombstone branch of find_slot by token template); probes/hm_probe.c compiles that text',
                    'probes/gc_probe.c (#includes gc.c to read the private gc_state; allocation addresses are reported by the probe and fed to the model)',
                    'tools/props/c20_native.py (program generator with a Python model of the expected stdout; cc -fsanitize=address,undefined,float-cast-overflow)']
     ck.assumptions += ['gc model: objects without children (gc_struct fields, the element walk of gc_mark and finalizers are not modelled; the native runs exercise them); fewer than 2^32 retains per object; the 256 MB auto-collection threshold is not reached in the probe',
@@ -857,7 +1002,7 @@ def replay(ck, d):
     if d.get('key', '').startswith('c20:native:') or 'program' in d:
         ck.build('plain')
         return c20_native.replay_native(ck, d)
-    ck.build('plain'); ck.gen(['gen_rtparams', 'gen_fmtsb', 'gen_listrt'])
+    ck.build('plain'); ck.gen(['gen_rtparams', 'gen_fmtsb', 'gen_listrt', 'gen_hashmap'])
     ref = ck.nvref('c20')
     if d.get('part') == 'list':
         probe = ck.probe('list_probe.c', 'asan', extra=list_extra())
@@ -866,6 +1011,17 @@ def replay(ck, d):
         impl = o.splitlines(); model = vlib.run_lines(ref, h)
         for l, a, m in zip(h, impl + ['<died>'] * len(h), model):
             print('%-14s impl : %s\n%-14s model: %s' % (l, a[:150], '', m[:150]))
+        print('rc=%s' % rc); print('\n'.join(san_lines(e)))
+        same = rc == 0 and impl == model
+        print('REPRODUCED' if not same else 'not reproduced')
+        return 0 if same else 1
+    if d.get('part') == 'hm':
+        probe = ck.probe('hm_probe.c', 'asan', extra=hm_extra())
+        h = d.get('history') or []
+        rc, o, e = vlib.sh([probe], input=('\n'.join(h) + '\n').encode(), timeout=60, env=ASAN_ENV)
+        impl = o.splitlines(); model = vlib.run_lines(ref, h)
+        for l, a, m in zip(h, impl + ['<died>'] * len(h), model):
+            print('%-22s impl : %s\n%-22s model: %s' % (l[:22], a[:170], '', m[:170]))
         print('rc=%s' % rc); print('\n'.join(san_lines(e)))
         same = rc == 0 and impl == model
         print('REPRODUCED' if not same else 'not reproduced')
